@@ -24,7 +24,7 @@ REPO = os.environ.get("VERIF_REPO", "/repo")
 
 
 def job(args):
-    name, checks, seed = args
+    name, checks, seed, workers = args
     scratch = tempfile.mkdtemp(prefix="recheck-")
     try:
         repo = os.path.join(scratch, "repo")
@@ -46,7 +46,8 @@ def job(args):
             env = dict(os.environ, VERIF_REPO=repo, VERIF_SEED=str(seed))
             rc = subprocess.run(
                 ["/venv/bin/python", os.path.join(verif, "run_check.py"), c,
-                 "--tier", "quick", "--workers", "6"], env=env, cwd=verif,
+                 "--tier", "quick", "--workers", str(workers)], env=env,
+                cwd=verif,
                 capture_output=True, text=True)
             first = [ln for ln in rc.stdout.splitlines()
                      if ln.startswith("  [")][:1]
@@ -64,6 +65,9 @@ def main():
     ap.add_argument("--only", default=None)
     ap.add_argument("--jobs", type=int, default=4)
     ap.add_argument("--seed", type=int, default=1)
+    ap.add_argument("--workers", type=int, default=14,
+                    help="workers of each check run (the case streams depend "
+                    "on it: 14 is what the registered commands use)")
     a = ap.parse_args()
     tasks = []
     for mp in sorted(glob.glob(os.path.join(VERIF, "seeded", "*",
@@ -75,7 +79,7 @@ def main():
         if m.get("out_of_domain"):
             continue
         checks = [c for c, r in m["checks_run"].items() if r["detected"]]
-        tasks.append((name, checks or [m["property"]], a.seed))
+        tasks.append((name, checks or [m["property"]], a.seed, a.workers))
     res = {}
     bad = 0
     with concurrent.futures.ThreadPoolExecutor(a.jobs) as ex:
@@ -91,7 +95,16 @@ def main():
                 print("%-8s %-8s %s %s" % ("DETECTED" if ok else "MISSED",
                                            name, c, r["first"][:150]))
             sys.stdout.flush()
-    with open(os.path.join(VERIF, "selftest", "seed_recheck.json"), "w") as f:
+    out_path = os.path.join(VERIF, "selftest", "seed_recheck.json")
+    if a.only and os.path.exists(out_path):
+        # a partial run updates the stored result instead of replacing it
+        try:
+            old = json.load(open(out_path))
+        except ValueError:
+            old = {}
+        old.update(res)
+        res = old
+    with open(out_path, "w") as f:
         json.dump(res, f, indent=1, sort_keys=True)
     print("%d seeded changes, %d not detected" % (len(tasks), bad))
     return 1 if bad else 0
